@@ -194,6 +194,11 @@ def run(res):
                 args, files = ["export", "-i", arg, "-d", "all=%s" % o("all.json"), "-d", "scenes=%s" % o("scenes.txt"), "-d", "level5=%s" % o("l5.json")], [o("all.json"), o("scenes.txt"), o("l5.json")]
             elif kind == "summary-varied":
                 args, files = ["info", "-i", arg, "-s"], []
+            if i % 4 == 1:
+                # the output paths already hold (longer) files in this run: the result must not depend on them
+                for f in files:
+                    with open(f, "wb") as fh:
+                        fh.write(b"\xAA" * 6000000)
             ec, txt = cli.run(args, cwd, env_extra=env)
             nrun += 1
             sig = (ec, digest(files)) + ((hashlib.sha256(txt.split("Stack backtrace")[0].encode()).hexdigest()[:16],) if kind in ("info", "summary-varied") else ())
@@ -234,7 +239,7 @@ def run(res):
     res.coverage.update({
         "evaluations": nrun,
         "distinct_nontrivial": len(jobs),
-        "rule": "each job run in %d fresh processes (per-process hash seeds by construction; different cwd, HOME, TZ, LANG, RUST_BACKTRACE and extra environment noise); hashes of every output file and the exit code compared across runs; editor configs with 2..5 pairwise-overlapping scene-cut and active-area ranges on the 259-frame sample, the same map content written in a different entry order for every run, compared with the Coq model fed in file order and in key order; editor configs with 3..5 `duplicate` entries inserted at one offset from different sources and several `remove` ranges; generate from every sample XML (several target displays; custom targets sharing every value but their id; two targets sharing a peak with an L2 trim for each in the same shots) and generator JSON; convert, demux, extract-rpu, remove, mux, inject-rpu, info, export (also with several `-d` entries naming one output file) on the sample streams" % nproc,
+        "rule": "each job run in %d fresh processes (per-process hash seeds by construction; different cwd, HOME, TZ, LANG, RUST_BACKTRACE and extra environment noise; in every fourth run the output paths already hold longer files); hashes of every output file and the exit code compared across runs; editor configs with 2..5 pairwise-overlapping scene-cut and active-area ranges on the 259-frame sample, the same map content written in a different entry order for every run, compared with the Coq model fed in file order and in key order; editor configs with 3..5 `duplicate` entries inserted at one offset from different sources and several `remove` ranges; generate from every sample XML (several target displays; custom targets sharing every value but their id; two targets sharing a peak with an L2 trim for each in the same shots) and generator JSON; convert, demux, extract-rpu, remove, mux, inject-rpu, info, export (also with several `-d` entries naming one output file) on the sample streams" % nproc,
         "cli_runs": nrun, "distinct_results_per_job": distinct, "model_checked": model_checked,
     })
     res.assumptions += ["independence from environment, working directory and fonts is observed by the repeated runs, not proved",
